@@ -351,11 +351,9 @@ def _apply_oracles(obs, case, spec, flat, cfg, task, before_cfg, before_task, mo
         ok = feq(cost, true_cost) if spec.get("weights") is None else close(cost, true_cost)
         if not ok and "cost" not in c02_seen:
             c02_seen.add("cost")
-            sub = "cost-mismatch"
-            if close(cost, -true_cost) and true_cost != 0:
-                sub = "cost-sign"
-            _v(obs, "C02", {"kind": sub}, f"generation {g}: position {repr(pos)[:120]} reported cost {cost!r}, "
-                                          f"objective gives {true_cost!r}")
+            note = " (the exact negative: a sign error)" if close(cost, -true_cost) and true_cost != 0 else ""
+            _v(obs, "C02", {"kind": "cost-mismatch"}, f"generation {g}: position {repr(pos)[:120]} reported cost {cost!r}, "
+                                                      f"objective gives {true_cost!r}{note}")
         if cost == cost:
             # documented function of the reported cost: 1/(1+c) for c>=0, 1+|c| for c<0 (calculate_fitness undoes the
             # internal negation of max tasks, so it is the same function of the user's cost in both directions)
